@@ -158,6 +158,96 @@ type ZeroInt int
 
 func (z ZeroInt) IsZero() bool { return z == 0 }
 
+// IsZeroers of string, slice, map and array kind whose IsZero is also true
+// for values that are NOT zero-length: the documentation (gotype/tags.go)
+// says a field is omitted if its length is 0 or if IsZero() is true.
+type ZeroStr string
+
+func (z ZeroStr) IsZero() bool { return z == "" || z == "none" }
+
+type ZeroBytes []byte
+
+func (z ZeroBytes) IsZero() bool {
+	for _, b := range z {
+		if b != 0 {
+			return false
+		}
+	}
+	return true
+}
+
+type ZeroSet map[string]bool
+
+func (z ZeroSet) IsZero() bool {
+	for _, b := range z {
+		if b {
+			return false
+		}
+	}
+	return true
+}
+
+type ZeroArr [2]byte
+
+func (z ZeroArr) IsZero() bool { return z == ZeroArr{} }
+
+// ZeroLevel: an int kind whose IsZero is true for non-zero values as well.
+type ZeroLevel int
+
+func (z ZeroLevel) IsZero() bool { return z <= 0 }
+
+type WithZeroers2 struct {
+	A ZeroStr    `struct:",omitempty"`
+	B ZeroBytes  `struct:",omitempty"`
+	C ZeroSet    `struct:",omitempty"`
+	D ZeroArr    `struct:",omitempty"`
+	E ZeroLevel  `struct:",omitempty"`
+	F *ZeroStr   `struct:",omitempty"`
+	G interface{} `struct:",omitempty"`
+	H ZeroStr
+	Z int
+}
+
+// Exemplars are values the random filler would practically never draw:
+// "zero" values in the sense of IsZero that are not zero-length.
+var Exemplars = map[reflect.Type][]interface{}{
+	reflect.TypeOf(ZeroStr("")):   {ZeroStr("none"), ZeroStr("")},
+	reflect.TypeOf(ZeroBytes(nil)): {ZeroBytes{0, 0}, ZeroBytes{0}},
+	reflect.TypeOf(ZeroSet(nil)):   {ZeroSet{"a": false}, ZeroSet{"a": false, "b": false}},
+	reflect.TypeOf(ZeroArr{}):      {ZeroArr{}},
+	reflect.TypeOf(ZeroLevel(0)):   {ZeroLevel(-1), ZeroLevel(-100)},
+}
+
+// Folderer is an interface type that includes the Fold method (every value of
+// it implements gotype.Folder; the interface itself may be nil).
+type Folderer interface {
+	Fold(v structform.ExtVisitor) error
+}
+
+type WithFolderIface struct {
+	A int
+	F Folderer
+	L []Folderer
+	M map[string]Folderer
+	B int
+}
+
+// FoldererValues are the dynamic types Folderer positions draw from.
+var FoldererValues = []reflect.Type{
+	reflect.TypeOf(FoldVal{}), reflect.TypeOf(&FoldPtr{}), reflect.TypeOf(FoldArr{}), reflect.TypeOf(FoldTags{}), reflect.TypeOf(FoldNum(0)), reflect.TypeOf(&FoldVal{}),
+}
+
+// nested inline interfaces
+type InlineOuter struct {
+	A int
+	X interface{} `struct:",inline"`
+	B int
+}
+
+type InlineInner struct {
+	Y interface{} `struct:",inline"`
+}
+
 type Base struct {
 	ID   int
 	Name string `struct:"name"`
@@ -253,6 +343,8 @@ var FoldOnly = []reflect.Type{
 	reflect.TypeOf(InlineFolder{}), reflect.TypeOf(InlinePtr{}), reflect.TypeOf(InlineMap{}), reflect.TypeOf(InlineIface{}),
 	reflect.TypeOf(FoldTags{}), reflect.TypeOf(FoldLabels{}), reflect.TypeOf(FoldNum(0)), reflect.TypeOf(WithNamedFolders{}),
 	reflect.TypeOf([]interface{}{}), reflect.TypeOf(map[string]interface{}{}),
+	reflect.TypeOf(WithZeroers2{}), reflect.TypeOf(ZeroStr("")), reflect.TypeOf(ZeroSet(nil)), reflect.TypeOf(WithFolderIface{}),
+	reflect.TypeOf(InlineOuter{}), reflect.TypeOf(InlineInner{}),
 }
 
 // FolderValues are dynamic types with custom Fold methods for interface{}
